@@ -170,6 +170,17 @@ Fixpoint run_trace_h (st : store) (hs : list hop) : list string :=
   end.
 Definition show_trace_h (hs : list hop) : string := sjoin "$" (run_trace_h [] hs).
 
+(* outputs of every step, then object t and every object from index `from` on (the rest of the store is not shown:
+   plain concatenate shares Message objects with its operands, known finding D9') *)
+Fixpoint run_outs_h (st : store) (hs : list hop) : store * list string :=
+  match hs with
+  | [] => (st, [])
+  | h :: hs' => let '(st1, x) := hstep st h in let '(st2, xs) := run_outs_h st1 hs' in (st2, show_out x :: xs)
+  end.
+Definition show_final_h (hs : list hop) (from t : nat) : string :=
+  let '(st, xs) := run_outs_h [] hs in
+  sjoin "$" xs ++ "@" ++ match nth_error st t with Some s => show_seq s | None => "?" end ++ "#" ++ show_store (skipn from st).
+
 (* ---- getters *)
 From Model Require Import Getters.
 Open Scope string_scope.
